@@ -94,6 +94,199 @@ theorem batch_chunks_bounded_all_histories (n : Nat) (hn : 1 ≤ n) (ds : List B
   · intro c hc; have := (hinv.1.each c hc).2.2; rw [hinv.2] at this; exact this
   · intro c hc; have := hinv.1.full c hc; rw [hinv.2] at this; exact this
 
+/-! ### the streaming collector: writer ++ pending = accepted, over whole histories -/
+
+/-- the samples in the complete writes of a writer, in order -/
+def writtenRows (w : Writer) : List Row :=
+  (w.log.map fun e => match e with
+    | WEntry.full docs => (docs.map OutDoc.samples).flatten
+    | WEntry.partialWrite _ _ => []).flatten
+
+/-- one `Add`, remembering the accepted documents -/
+def addLog (acc : Streaming × List BDoc) (d : BDoc) : Streaming × List BDoc :=
+  let r := acc.1.add d
+  (r.1, if r.2 = .ok then acc.2 ++ [d] else acc.2)
+
+theorem resolve_samples (b : Better) (docs : List OutDoc) (h : b.resolve = some docs) :
+    (docs.map OutDoc.samples).flatten = b.samples := by
+  unfold Better.resolve at h
+  cases hr : b.ref with
+  | none => simp [hr] at h
+  | some r =>
+    simp only [hr] at h
+    cases hm : b.metadata with
+    | none => simp [hm] at h; subst h; simp [OutDoc.samples, Better.samples, hr]
+    | some md => simp [hm] at h; subst h; simp [OutDoc.samples, Better.samples, hr]
+
+/-- one step of the invariant `written ++ pending = accepted` -/
+theorem streaming_step (c : Streaming) (acc : List BDoc) (d : BDoc) (hs : c.out.script = [])
+    (h : writtenRows c.out ++ c.inner.samples = acc.map fun x => (extractDoc x).map (·.1)) :
+    (addLog (c, acc) d).1.out.script = [] ∧
+    writtenRows (addLog (c, acc) d).1.out ++ (addLog (c, acc) d).1.inner.samples =
+      (addLog (c, acc) d).2.map fun x => (extractDoc x).map (·.1) := by
+  -- the state after the implicit flush (if any): same invariant, same accepted list
+  have key : ∀ (c1 : Streaming), c1.out.script = [] →
+      writtenRows c1.out ++ c1.inner.samples = acc.map (fun x => (extractDoc x).map (·.1)) →
+      (let r := c1.inner.add d
+       let c2 : Streaming := if r.2 = .ok then { c1 with inner := r.1, count := c1.count + 1 } else c1
+       c2.out.script = [] ∧ writtenRows c2.out ++ c2.inner.samples =
+         (if r.2 = .ok then acc ++ [d] else acc).map fun x => (extractDoc x).map (·.1)) := by
+    intro c1 hs1 h1
+    by_cases hok : (c1.inner.add d).2 = .ok
+    · simp only [hok, if_true]
+      refine ⟨hs1, ?_⟩
+      rw [Better.add_ok_appends _ _ hok, ← List.append_assoc, h1]; simp
+    · simp only [hok, if_false]; exact ⟨hs1, h1⟩
+  unfold addLog Streaming.add
+  by_cases hfull : c.count ≥ c.maxSamples
+  · simp only [hfull, if_true]
+    unfold Streaming.flush
+    by_cases h0 : c.info.2 = 0
+    · simp only [h0, if_true, Bool.not_true, Bool.false_eq_true, if_false]
+      have := key c hs h
+      by_cases hok : (c.inner.add d).2 = .ok <;> simp_all
+    · simp only [h0, if_false]
+      cases hres : c.resolve with
+      | none => simp [hs, h]
+      | some docs =>
+        simp only [Writer.write, hs]
+        have hsam := resolve_samples c.inner docs hres
+        have h1 : writtenRows ({ c with out := { c.out with log := c.out.log ++ [WEntry.full docs] } } : Streaming).reset.out ++
+            ({ c with out := { c.out with log := c.out.log ++ [WEntry.full docs] } } : Streaming).reset.inner.samples =
+            acc.map fun x => (extractDoc x).map (·.1) := by
+          simp only [Streaming.reset, writtenRows, List.map_append, List.flatten_append, List.map_cons,
+            List.map_nil, List.flatten_cons, List.flatten_nil, List.append_nil, hsam]
+          simp only [Better.reset, Better.samples, Option.isSome_none, Bool.false_eq_true, if_false, List.append_nil]
+          exact h
+        have := key ({ c with out := { c.out with log := c.out.log ++ [WEntry.full docs] } } : Streaming).reset hs h1
+        by_cases hok : ((({ c with out := { c.out with log := c.out.log ++ [WEntry.full docs] } } : Streaming).reset).inner.add d).2 = .ok <;>
+          simp_all
+  · simp only [hfull, if_false, Bool.not_true, Bool.false_eq_true]
+    have := key c hs h
+    by_cases hok : (c.inner.add d).2 = .ok <;> simp_all
+
+/-- **The streaming collector loses, duplicates and reorders nothing**: after any sequence of `Add`
+calls over a writer that accepts every write, the samples in the writer followed by the pending
+ones are exactly the accepted samples, once each and in order. -/
+theorem streaming_faithful_log (n : Nat) (ds : List BDoc) :
+    let r := ds.foldl addLog (Streaming.new n, [])
+    writtenRows r.1.out ++ r.1.inner.samples = r.2.map fun x => (extractDoc x).map (·.1) := by
+  have : ∀ (ds : List BDoc) (c : Streaming) (acc : List BDoc), c.out.script = [] →
+      writtenRows c.out ++ c.inner.samples = acc.map (fun x => (extractDoc x).map (·.1)) →
+      writtenRows (ds.foldl addLog (c, acc)).1.out ++ (ds.foldl addLog (c, acc)).1.inner.samples =
+        (ds.foldl addLog (c, acc)).2.map fun x => (extractDoc x).map (·.1) := by
+    intro ds
+    induction ds with
+    | nil => intro c acc _ h; exact h
+    | cons d ds ih =>
+      intro c acc hs h
+      obtain ⟨h1, h2⟩ := streaming_step c acc d hs h
+      simp only [List.foldl_cons]
+      have e : addLog (c, acc) d = ((addLog (c, acc) d).1, (addLog (c, acc) d).2) := rfl
+      rw [e]
+      exact ih _ _ h1 h2
+  exact this ds (Streaming.new n) [] rfl (by simp [writtenRows, Streaming.new, Better.samples])
+
+/-- a flush moves the pending samples to the writer and keeps `written ++ pending` -/
+theorem streaming_flush_inv (c : Streaming) (rows : List Row) (hs : c.out.script = [])
+    (h : writtenRows c.out ++ c.inner.samples = rows) :
+    (c.flush).1.out.script = [] ∧ writtenRows (c.flush).1.out ++ (c.flush).1.inner.samples = rows := by
+  unfold Streaming.flush
+  by_cases h0 : c.info.2 = 0
+  · simp [h0, hs, h]
+  · simp only [h0, if_false]
+    cases hres : c.resolve with
+    | none => simp [hs, h]
+    | some docs =>
+      have hsam := resolve_samples c.inner docs hres
+      simp only [Writer.write, hs, if_true]
+      refine ⟨by simp only [Streaming.reset]; try exact hs, ?_⟩
+      simp only [Streaming.reset, writtenRows, List.map_append, List.flatten_append, List.map_cons,
+        List.map_nil, List.flatten_cons, List.flatten_nil, List.append_nil, hsam]
+      simp only [Better.reset, Better.samples, Option.isSome_none, Bool.false_eq_true, if_false, List.append_nil]
+      exact h
+
+/-- one `Add` of the schema-aware streaming collector, remembering the accepted documents -/
+def addLogSD (acc : StreamingDynamic × List BDoc) (d : BDoc) : StreamingDynamic × List BDoc :=
+  let r := acc.1.add d
+  (r.1, if r.2 = .ok then acc.2 ++ [d] else acc.2)
+
+theorem sd_flush_inv (c : StreamingDynamic) (rows : List Row) (hs : c.s.out.script = [])
+    (h : writtenRows c.s.out ++ c.s.inner.samples = rows) :
+    (c.flush).1.s.out.script = [] ∧ writtenRows (c.flush).1.s.out ++ (c.flush).1.s.inner.samples = rows := by
+  have := streaming_flush_inv c.s rows hs h
+  unfold StreamingDynamic.flush
+  cases hf : c.s.flush with
+  | mk s' ok =>
+    rw [hf] at this
+    by_cases hcond : ok = true ∧ c.s.info.2 ≠ 0
+    · simp only [if_pos hcond]; exact this
+    · simp only [if_neg hcond]; exact this
+
+theorem sd_step (c : StreamingDynamic) (acc : List BDoc) (d : BDoc) (hs : c.s.out.script = [])
+    (h : writtenRows c.s.out ++ c.s.inner.samples = acc.map fun x => (extractDoc x).map (·.1)) :
+    (addLogSD (c, acc) d).1.s.out.script = [] ∧
+    writtenRows (addLogSD (c, acc) d).1.s.out ++ (addLogSD (c, acc) d).1.s.inner.samples =
+      (addLogSD (c, acc) d).2.map fun x => (extractDoc x).map (·.1) := by
+  -- after the optional schema-change flush the wrapped streaming collector takes the sample
+  have key : ∀ (c1 : StreamingDynamic), c1.s.out.script = [] →
+      writtenRows c1.s.out ++ c1.s.inner.samples = acc.map (fun x => (extractDoc x).map (·.1)) →
+      (c1.s.add d).1.out.script = [] ∧
+      writtenRows (c1.s.add d).1.out ++ (c1.s.add d).1.inner.samples =
+        (if (c1.s.add d).2 = .ok then acc ++ [d] else acc).map fun x => (extractDoc x).map (·.1) := by
+    intro c1 hs1 h1
+    have := streaming_step c1.s acc d hs1 h1
+    simpa [addLog] using this
+  unfold addLogSD StreamingDynamic.add
+  cases hh : c.hash with
+  | none =>
+    simp only
+    by_cases hc : c.s.count > 0
+    · simp only [hc, if_true]
+      obtain ⟨f1, f2⟩ := sd_flush_inv c _ hs h
+      by_cases hok : (c.flush).2 = true
+      · simp only [hok, Bool.not_true, Bool.false_eq_true, if_false]
+        exact key _ f1 f2
+      · have hok' : (c.flush).2 = false := by simpa using hok
+        simp [hok', f1, f2]
+    · simp only [hc, if_false, Bool.not_true, Bool.false_eq_true]
+      exact key c hs h
+  | some hsh =>
+    dsimp only
+    by_cases hc : hsh ≠ schemaKey d
+    · rw [if_pos hc]
+      obtain ⟨f1, f2⟩ := sd_flush_inv c _ hs h
+      by_cases hok : (c.flush).2 = true
+      · simp only [hok, Bool.not_true, Bool.false_eq_true, if_false]
+        exact key _ f1 f2
+      · have hok' : (c.flush).2 = false := by simpa using hok
+        simp [hok', f1, f2]
+    · rw [if_neg hc]
+      simp only [Bool.not_true, Bool.false_eq_true, if_false]
+      exact key c hs h
+
+/-- the same for the schema-aware streaming collector (schema changes flush early; nothing is
+lost, duplicated or reordered across them) -/
+theorem streaming_dynamic_faithful_log (n : Nat) (ds : List BDoc) :
+    let r := ds.foldl addLogSD (StreamingDynamic.new n, [])
+    writtenRows r.1.s.out ++ r.1.s.inner.samples = r.2.map fun x => (extractDoc x).map (·.1) := by
+  have : ∀ (ds : List BDoc) (c : StreamingDynamic) (acc : List BDoc), c.s.out.script = [] →
+      writtenRows c.s.out ++ c.s.inner.samples = acc.map (fun x => (extractDoc x).map (·.1)) →
+      writtenRows (ds.foldl addLogSD (c, acc)).1.s.out ++ (ds.foldl addLogSD (c, acc)).1.s.inner.samples =
+        (ds.foldl addLogSD (c, acc)).2.map fun x => (extractDoc x).map (·.1) := by
+    intro ds
+    induction ds with
+    | nil => intro c acc _ h; exact h
+    | cons d ds ih =>
+      intro c acc hs h
+      obtain ⟨h1, h2⟩ := sd_step c acc d hs h
+      simp only [List.foldl_cons]
+      have e : addLogSD (c, acc) d = ((addLogSD (c, acc) d).1, (addLogSD (c, acc) d).2) := rfl
+      rw [e]
+      exact ih _ _ h1 h2
+  exact this ds (StreamingDynamic.new n) [] rfl
+    (by simp [writtenRows, StreamingDynamic.new, Streaming.new, Better.samples])
+
 /-! non-vacuity: a concrete history -/
 example : (({ maxDeltas := 1 } : Better).run
     [.add (.cons [97] (.int64 1#64) .nil), .add (.cons [97] (.int64 2#64) .nil),
